@@ -461,7 +461,12 @@ void * isa_l_common_init(struct ec_backend_args *args, void *backend_sohandle,
 
     /* validate EC arguments */
     {
-        long long max_symbols = 1LL << desc->w;
+        long long max_symbols;
+        /* fragments are sized in whole words of w/8 bytes */
+        if (desc->w < 8) {
+            goto error;
+        }
+        max_symbols = 1LL << desc->w;
         if ((desc->k + desc->m) > max_symbols) {
             goto error;
         }
